@@ -50,7 +50,8 @@ TInt == Leaf("int")
 TBool == Leaf("bool")
 TStr == Leaf("str")
 TNone == Leaf("none")
-TArray == Leaf("array")
+TArrayAs(ann) == Ty("array", ann, <<>>, <<>>, <<>>)    \* ann: how the field is annotated:
+ArrayAnn == {"NDArray", "NDArray[float64]", "ndarray"}  \*   npt.NDArray | npt.NDArray[np.float64] | np.ndarray
 TXGrid == Leaf("xgrid")
 TDict == Leaf("dict")
 TTuple(args) == Ty("tuple", "", args, <<>>, <<>>)
@@ -103,30 +104,33 @@ IsPlain(v) ==
     [] v.k = "dict" -> \A i \in DOMAIN v.kids : IsPlain(v.kids[i])
     [] OTHER -> FALSE
 
-(* first non-plain leaf of a raw structure and the kind of its container            *)
-RECURSIVE BadLeaf(_, _)
-BadLeaf(v, parent) ==
-  IF v.k \in {"list", "dict"} /\ (v.k = "dict" \/ v.a = "")
-  THEN LET bad == {i \in DOMAIN v.kids : ~IsPlain(v.kids[i])}
-       IN IF bad = {} THEN <<"", "">>
-          ELSE BadLeaf(v.kids[CHOOSE i \in bad : \A j \in bad : i <= j], v.k)
-  ELSE IF IsPlain(v) THEN <<"", "">> ELSE <<v.k, parent>>
+(* first non-plain leaf of the raw structure r of the value v (parallel descent) and   *)
+(* the kind of the container that holds it in v                                      *)
+RECURSIVE BadPos(_, _, _)
+BadPos(v, r, parent) ==
+  IF IsPlain(r) THEN <<"", "">>
+  ELSE IF v.k \in {"obj", "list", "tuple"} /\ r.k \in {"dict", "list"} /\ Len(v.kids) = Len(r.kids)
+            /\ \E i \in DOMAIN r.kids : ~IsPlain(r.kids[i])
+       THEN LET bad == {i \in DOMAIN r.kids : ~IsPlain(r.kids[i])}
+                m == CHOOSE i \in bad : \A j \in bad : i <= j
+            IN BadPos(v.kids[m], r.kids[m], v.k)
+       ELSE <<r.k, parent>>
 
 -----------------------------------------------------------------------------
 (* type_(value) for the builtin scalar types, on the plain domain                   *)
 Conv(t, x) ==
   CASE x.k = "dict" -> Err("TypeError")                            \* type_(**value)
     [] t = "float" -> CASE x.k \in {"pyfloat", "pyint"} -> Atom("pyfloat", x.a)
-                        [] x.k = "pybool" -> Atom("pyfloat", IF x.a = "True" THEN "1" ELSE "0")
+                        [] x.k = "pybool" -> Atom("pyfloat", IF x.a = "True" THEN "1.0" ELSE "0.0")
                         [] x.k = "pystr" -> Err("ValueError")
                         [] OTHER -> Err("TypeError")
     [] t = "int" -> CASE x.k \in {"pyfloat", "pyint"} -> Atom("pyint", x.a)     \* integral values only
-                      [] x.k = "pybool" -> Atom("pyint", IF x.a = "True" THEN "1" ELSE "0")
+                      [] x.k = "pybool" -> Atom("pyint", IF x.a = "True" THEN "1.0" ELSE "0.0")
                       [] x.k = "pystr" -> Err("ValueError")
                       [] OTHER -> Err("TypeError")
     [] t = "bool" -> CASE x.k = "pybool" -> x                      \* bool(x) never raises: truthiness
                        [] x.k = "none" -> Bool(FALSE)
-                       [] x.k \in {"pyfloat", "pyint"} -> Bool(x.a # "0")
+                       [] x.k \in {"pyfloat", "pyint"} -> Bool(x.a \notin {"0", "0.0", "-0.0"})
                        [] x.k = "pystr" -> Bool(x.a # "")
                        [] x.k = "list" -> Bool(Len(x.kids) > 0)
                        [] OTHER -> Bool(TRUE)
@@ -163,7 +167,13 @@ Load(T, x) ==
               IN IF AnyErr(ks) THEN FirstErr(ks) ELSE ListV(T.cls, ks)
     [] T.t = "tuple" ->                                            \* load_field(tuple, value) = tuple(value): no element loading
          IF x.k = "list" THEN TupleV(x.kids) ELSE Err("TypeError")
-    [] T.t = "array" -> IF x.k = "list" THEN FromList(x) ELSE x    \* np.array(value) only for lists
+    [] T.t = "array" ->
+         (* numpy >= 2.4 (installed: 2.5; pyproject: numpy ^2): npt.NDArray is a typing.TypeAliasType.     *)
+         (* Bare: get_origin is None and `np.ndarray in type_.__mro__` raises AttributeError; subscripted:  *)
+         (* get_origin is the alias and issubclass(origin, (list, Generic)) raises TypeError.               *)
+         IF Design = "faithful" /\ T.cls = "NDArray" THEN Err("AttributeError")
+         ELSE IF Design = "faithful" /\ T.cls = "NDArray[float64]" THEN Err("TypeError")
+         ELSE IF x.k = "list" THEN FromList(x) ELSE x              \* np.array(value) only for lists
     [] T.t = "obj" ->                                              \* type_.from_dict(value)
          IF x.k = "list" THEN                                      \* cls(*dictionary): positional, nothing loaded
               IF Len(x.kids) = Len(T.names) THEN ObjV(T.cls, x.kids, T.names) ELSE Err("TypeError")
@@ -204,6 +214,7 @@ Diff(v, w) ==
   ELSE IF v.k = "xgrid" /\ w.k = "xgrid" /\ Norm(XGridV("", v.kids)) = Norm(XGridV("", w.kids))
        THEN "xgrid-log-flag-lost"
   ELSE IF v.k = "none" /\ w.k # "none" THEN "optional-none-coerced"
+  ELSE IF v.k = "array" /\ w.k # "array" THEN "array-not-restored"
   ELSE IF v.k = w.k /\ v.a = w.a /\ v.n = w.n /\ Len(v.kids) = Len(w.kids) /\ Len(v.kids) > 0
        THEN LET bad == {i \in DOMAIN v.kids : Norm(v.kids[i]) # Norm(w.kids[i])}
             IN Diff(v.kids[CHOOSE i \in bad : \A j \in bad : i <= j], w.kids[CHOOSE i \in bad : \A j \in bad : i <= j])
@@ -213,7 +224,7 @@ Diff(v, w) ==
 Outcome(T, v) ==
   LET r == Raw(v) IN
   IF ~IsPlain(r)
-  THEN LET b == BadLeaf(r, "field") IN "not-plain:" \o b[1] \o "-in-" \o b[2]
+  THEN LET b == BadPos(v, r, "field") IN "not-plain:" \o b[1] \o "-in-" \o b[2]
   ELSE LET back == Load(T, r) IN
        IF IsErr(back) THEN "load-failed:" \o back.a
        ELSE IF Same(back, v) THEN "ok" ELSE "differs:" \o Diff(v, back)
